@@ -16,6 +16,7 @@ import (
 	"io"
 	"strings"
 	"testing"
+	"time"
 
 	"cuelabs.dev/go/oci/ociregistry"
 	"cuelabs.dev/go/oci/ociregistry/ocimem"
@@ -220,7 +221,17 @@ func runFaults(s FaultScript, v *vt.V) {
 		if w := uni.Writers[op.W]; w != nil {
 			commitRepo = w.Repo
 		}
-		out := uni.Exec(op)
+		// a write reports: whatever a member does with the call, the unified call returns
+		var out ops.Out
+		execDone := make(chan struct{})
+		go func() { out = uni.Exec(op); close(execDone) }()
+		select {
+		case <-execDone:
+		case <-time.After(20 * time.Second):
+			v.Failf("write-never-reports", "op %d %+v through the unifier (sequential=%v, armed faults %q / %q): the call has not returned within 20 s", i, op, s.Sequential, fs[0].arm, fs[1].arm)
+			uni.Writers = nil // (the deferred clean-up must not wait for the wedged call's handles)
+			return
+		}
 		fs[0].arm, fs[1].arm = "", ""
 		if out.Skipped || op.R >= len(u.Repos) {
 			prevFired = false
@@ -307,7 +318,7 @@ func runFaults(s FaultScript, v *vt.V) {
 var propFaults = &vt.Prop[FaultScript]{
 	ID:   "C15",
 	Name: "WritesWithMemberFaults",
-	Rule: "two ocimem members start equal (generated prefix); the rest of a generated history (<= 30 ops, valid names, pushes, manifests, mounts, deletes, chunked uploads) goes through the unifier while one member, behind a fault layer, fails chosen write calls at entry, after having consumed the pushed content, or at commit time, or the caller's content reader fails after delivering everything; a failed call is retried without the fault half of the time; oracle: a write call during which a member failed must not report success, and after every write call that reports success its effect is looked up in both members directly (pushed / mounted / committed blob and manifest present, tag bound to the pushed digest, deleted item absent); non-trivial = a fault fired; distinct = (policy, op kinds with fault positions)",
+	Rule: "two ocimem members start equal (generated prefix); the rest of a generated history (<= 30 ops, valid names, pushes, manifests, mounts, deletes, chunked uploads) goes through the unifier (every call under a 20 s watchdog: a write reports, whatever a member does) while one member, behind a fault layer, fails chosen write calls at entry, after having consumed the pushed content, or at commit time, or the caller's content reader fails after delivering everything; a failed call is retried without the fault half of the time; oracle: a write call during which a member failed must not report success, and after every write call that reports success its effect is looked up in both members directly (pushed / mounted / committed blob and manifest present, tag bound to the pushed digest, deleted item absent); non-trivial = a fault fired; distinct = (policy, op kinds with fault positions)",
 	Gen: func(t *rapid.T) FaultScript {
 		cfg := hist.Config{MaxOps: 22, ValidRepos: 2, Uploads: true, Deletes: true, MaxSmall: 20, NoRange: true, NoWrongOffset: true}
 		h := hist.Gen(cfg)(t)
